@@ -22,12 +22,14 @@ func (ni *nodeInc) main() {
 	defer func() { ni.exited = true }()
 	if err := SetIdentity(ni.dir, simCID, ni.node.id); err != nil {
 		ni.newErr = err
+		run.led.onStartFailed(ni, "SetIdentity", err)
 		return
 	}
 	opt := run.simOptions()
 	r, err := New(opt, ni.fsm, ni.dir)
 	if err != nil {
 		ni.newErr = err
+		run.led.onStartFailed(ni, "New", err)
 		return
 	}
 	nc := ni.nc
